@@ -1,6 +1,7 @@
 /* C13 (HTTP transport part) - the asynchronous service over the curl multi client: explicit-state search over
  * event histories with the fake libcurl owned by the harness (every transfer completes when and how the
  * harness decides). Same shadow model and invariant as c13_async.c. */
+#include <stdarg.h>
 #include "ku.h"
 #include "simnet.h"
 #include "ref/ref_pdu.h"
@@ -413,6 +414,156 @@ static void part_dfs(void) {
 	}
 }
 
+/* ------------------------------------------------------------------ two services on one context
+ * All asynchronous HTTP clients of a context share one transfer engine (curl multi handle), and every service numbers its
+ * requests from 1. A transfer that finishes while ANOTHER service is being run still belongs to the service that started it.
+ * Every schedule of length <= 5 over {add on A, add on B, run A, run B, complete the oldest open transfer of A / of B with its
+ * valid reply} followed by a drain; each request comes back from its own service, exactly once, with a signature for its hash. */
+typedef struct { KSI_AsyncHandle *h; unsigned seed; int svc; int returned; fc_easy *easy; uint64_t id; int completed; } treq_t;
+static struct { KSI_AsyncService *svc[2]; treq_t r[8]; int n; int bad; } T;
+static const char TCH[] = "aAbBrRcC";   /* unused letters kept apart from the main alphabet */
+static void t_submit(fc_easy *e) {
+	rp_req r;
+	int i;
+	if (rp_parse_request(e->sent.p, e->sent.n, RP_AGGR, &r) == 0 && r.has_req && r.has_hash) {
+		for (i = 0; i < T.n; i++) {
+			unsigned char h[RH_MAX_IMPRINT];
+			size_t hl = ref_fake_imprint(RH_SHA256, T.r[i].seed, h);
+			if (!T.r[i].easy && r.hash_len == hl && memcmp(r.hash, h, hl) == 0) { T.r[i].easy = e; T.r[i].id = r.req_id; break; }
+		}
+	}
+	rp_req_free(&r);
+}
+static void t_fail(const char *sig, const char *hist, const char *fmt, ...) {
+	char m[600];
+	va_list ap;
+	va_start(ap, fmt); vsnprintf(m, sizeof m, fmt, ap); va_end(ap);
+	vf_fail(sig, "%s [two services on one context; schedule %s; letters a/b = add on A/B, r/R = run A/B, c/C = complete the oldest open transfer of A/B]", m, hist);
+	T.bad = 1;
+}
+static void t_run(int k, const char *hist) {
+	KSI_AsyncHandle *out = NULL;
+	size_t waiting = 0;
+	int i, state = -1, res = KSI_AsyncService_run(T.svc[k], &out, &waiting);
+	vf_count("impl_calls", 1);
+	if (res != KSI_OK) { t_fail("two-services-run-error", hist, "run of service %c failed 0x%x", 'A' + k, res); return; }
+	if (!out) return;
+	KSI_AsyncHandle_getState(out, &state);
+	for (i = 0; i < T.n; i++) if (T.r[i].h == out && !T.r[i].returned) break;
+	if (i == T.n) { t_fail("foreign-handle", hist, "service %c returned a handle it never accepted (state %d)", 'A' + k, state); KSI_AsyncHandle_free(out); return; }
+	T.r[i].returned = 1;
+	if (T.r[i].svc != k) t_fail("handle-from-other-service", hist, "service %c handed back a request that was accepted by service %c", 'A' + k, 'A' + T.r[i].svc);
+	if (state == KSI_ASYNC_STATE_RESPONSE_RECEIVED) {
+		KSI_Signature *sig = NULL;
+		KSI_DataHash *dh = NULL;
+		unsigned char hh[RH_MAX_IMPRINT];
+		size_t hl = ref_fake_imprint(RH_SHA256, T.r[i].seed, hh);
+		if (!T.r[i].completed) t_fail("response-without-valid-reply", hist, "request %d of service %c completed with a response although its own transfer has not finished", i, 'A' + T.r[i].svc);
+		if (KSI_AsyncHandle_getSignature(out, &sig) != KSI_OK || sig == NULL) t_fail("honest-reply-no-signature", hist, "request %d of service %c: no signature although only honest replies were sent", i, 'A' + T.r[i].svc);
+		else { KSI_Signature_getDocumentHash(sig, &dh); if (!ku_hash_eq(dh, hh, hl)) t_fail("foreign-signature", hist, "request %d of service %c completed with a signature for another hash", i, 'A' + T.r[i].svc); }
+		KSI_Signature_free(sig);
+		vf_outcome("two-services:returned:response");
+	} else {
+		int err = 0;
+		KSI_AsyncHandle_getError(out, &err);
+		t_fail("error-without-cause", hist, "request %d of service %c came back in state %d with error 0x%x although every transfer is answered honestly", i, 'A' + T.r[i].svc, state, err);
+	}
+	KSI_AsyncHandle_free(out);
+}
+static int t_complete(int k) {
+	int i;
+	for (i = 0; i < T.n; i++) if (T.r[i].svc == k && T.r[i].easy && !T.r[i].completed) {
+		vbuf b;
+		vb_init(&b);
+		build_reply(&b, T.r[i].seed, T.r[i].id, 0, 0);
+		fc_complete(T.r[i].easy, 0, 200, b.p, b.n, 0);
+		vb_free(&b);
+		T.r[i].completed = 1;
+		return 1;
+	}
+	return 0;
+}
+static int t_add(KSI_CTX *ctx, int k, const char *hist) {
+	KSI_AsyncHandle *h = NULL;
+	KSI_DataHash *dh = NULL;
+	unsigned char hh[RH_MAX_IMPRINT];
+	size_t hl;
+	int res, cnt = 0, i;
+	for (i = 0; i < T.n; i++) if (T.r[i].svc == k && !T.r[i].returned) cnt++;
+	if (T.n >= 8 || cnt >= 2) return 0;
+	hl = ref_fake_imprint(RH_SHA256, 500u + (unsigned)T.n, hh);
+	KSI_DataHash_fromImprint(ctx, hh, hl, &dh);
+	if (KSI_AsyncSigningHandle_new(ctx, dh, 0, &h) != KSI_OK) vf_harness_error("handle new");
+	res = KSI_AsyncService_addRequest(T.svc[k], h);
+	vf_count("impl_calls", 1);
+	if (res != KSI_OK) { t_fail("add-error", hist, "service %c refused a request with 0x%x (%d outstanding, cache size 3)", 'A' + k, res, cnt); KSI_AsyncHandle_free(h); return 1; }
+	memset(&T.r[T.n], 0, sizeof T.r[0]);
+	T.r[T.n].h = h; T.r[T.n].seed = 500u + (unsigned)T.n; T.r[T.n].svc = k; T.n++;
+	return 1;
+}
+static void t_schedule(const int *ev, int n) {
+	KSI_CTX *ctx;
+	char hist[16];
+	int i, k, rounds;
+	static const char L[] = "abrRcC";
+	for (i = 0; i < n; i++) hist[i] = L[ev[i]];
+	hist[n] = 0;
+	memset(&T, 0, sizeof T);
+	sn_reset(); fc_reset();
+	fc.on_submit = t_submit;
+	ctx = ku_ctx();
+	for (k = 0; k < 2; k++) {
+		if (KSI_SigningAsyncService_new(ctx, &T.svc[k]) != KSI_OK) vf_harness_error("service");
+		if (KSI_AsyncService_setEndpoint(T.svc[k], k ? "ksi+http://b13.test:8080/sign" : "ksi+http://a13.test:8080/sign", LOGIN, KEY) != KSI_OK) vf_harness_error("endpoint");
+		KSI_AsyncService_setOption(T.svc[k], KSI_ASYNC_OPT_REQUEST_CACHE_SIZE, (void *)(size_t)3);
+		KSI_AsyncService_setOption(T.svc[k], KSI_ASYNC_OPT_MAX_REQUEST_COUNT, (void *)(size_t)3);
+	}
+	for (i = 0; i < n && !T.bad; i++) {
+		int done = 1;
+		switch (ev[i]) {
+			case 0: case 1: done = t_add(ctx, ev[i], hist); break;
+			case 2: case 3: t_run(ev[i] - 2, hist); break;
+			default: done = t_complete(ev[i] - 4); break;
+		}
+		if (done) n_transitions++;
+	}
+	/* drain: everything still open is answered honestly, both services are run in turn */
+	for (rounds = 0; rounds < 12 && !T.bad; rounds++) {
+		int open = 0;
+		t_run(rounds & 1, hist);
+		while (t_complete(0) || t_complete(1)) {}
+		for (i = 0; i < T.n; i++) if (!T.r[i].returned) open++;
+		if (!open && rounds >= 2) break;
+		sn_now += 1;
+	}
+	if (!T.bad) for (i = 0; i < T.n; i++) if (!T.r[i].returned) { t_fail("request-lost", hist, "request %d of service %c was never handed back although its transfer was answered", i, 'A' + T.r[i].svc); break; }
+	KSI_AsyncService_free(T.svc[0]); KSI_AsyncService_free(T.svc[1]);
+	KSI_CTX_free(ctx);
+	if (fc_easy_live != 0) { t_fail("leak-http-handle", hist, "%d curl easy handle(s) alive after freeing both services and the context", fc_easy_live); fc_easy_live = 0; }
+	if (vf_alloc_live != 0) { t_fail("leak", hist, "%ld SDK allocations live after freeing both services and the context", vf_alloc_live); vf_alloc_live = 0; }
+	(void)TCH;
+}
+static void part_two_services(void) {
+	int len = VF_THOROUGH ? 7 : 6, e1, e2;
+	for (e1 = 0; e1 < 2; e1++) for (e2 = 0; e2 < 6; e2++) {
+		long total = 1, idx, runs = 0;
+		int i, ev[12];
+		if (!vf_case_begin("http-two-services:%c%c:len%d", "ab"[e1], "abrRcC"[e2], len)) continue;
+		n_transitions = 0;
+		for (i = 2; i < len; i++) total *= 6;
+		for (idx = 0; idx < total; idx++) {
+			long x = idx;
+			ev[0] = e1; ev[1] = e2;
+			for (i = 2; i < len; i++) { ev[i] = (int)(x % 6); x /= 6; }
+			t_schedule(ev, len);
+			runs++;
+		}
+		vf_count("traces", runs); vf_count("transitions", n_transitions); vf_count("dfs_schedules", runs);
+		vf_obs("runs=%ld", runs);
+		vf_case_end(1);
+	}
+}
+
 static void run(void) {
 	int ci, e1, e2;
 	int depth = VF_THOROUGH ? 7 : 5;
@@ -434,6 +585,7 @@ static void run(void) {
 	}
 	free(seen);
 	part_dfs();
+	part_two_services();
 }
 
 int main(int argc, char **argv) {
